@@ -181,6 +181,14 @@ fn c07_judge(d: &mut Driver, rep: &mut Report, c: &TableCase, altered: &[u8], wh
         rep.judge_fail(mk("reading the altered file panics", vec![("outputs", J::s(&out.join(";")))]));
         return;
     }
+    // the table opened although bytes of a checksummed METADATA block (filter / metaindex / index block, its type byte
+    // or its checksum: everything between the data blocks and the footer of a table this writer produced) were
+    // altered: those blocks are read and verified at open (the filter block when the reader's policy is the
+    // writer's, which is how this session opens), so the damage must have been noticed (C07_*_damage_detected)
+    if touched_lo >= data_end && touched_hi <= c.img.len() - 48 && altered[touched_lo..touched_hi] != c.img[touched_lo..touched_hi] {
+        rep.judge_fail(mk("bytes of a checksummed metadata block (filter / metaindex / index) were altered and the table still opens", vec![("open", J::s(&open))]));
+        return;
+    }
     // F3 (known finding C07/footer-unprotected): the 48-byte footer carries no checksum. If the alteration
     // lies in the footer's handle area, the table still opens, and the decoded handles differ from the
     // original ones, then the reader was pointed at other checksum-valid blocks (type confusion) - no reader
@@ -533,6 +541,31 @@ pub fn c08(ctx: &Ctx) -> Report {
                 }
                 im[len - 48..].copy_from_slice(&foot);
                 c08_session(d, rep, rng, &im, len, &c.cfg.cmp, &keys, "footer_handle_extreme", &progress);
+            }
+            // EMPTY blocks under a valid checksum, with every type byte: a 53-byte file whose footer points at a block of
+            // size 0, and the base table with its index handle redirected to such a block appended behind the data
+            if i < 3 {
+                for ctype in [0u8, 1, 2, 0xff] {
+                    let mut im = crate::refenc::physical(&[], ctype);
+                    let mut foot = crate::refenc::handle(0, 0);
+                    foot.extend(crate::refenc::handle(0, 0));
+                    foot.resize(40, 0);
+                    foot.extend_from_slice(&[0x57, 0xfb, 0x80, 0x8b, 0x24, 0x75, 0x47, 0xdb]);
+                    im.extend(foot);
+                    let l = im.len();
+                    c08_session(d, rep, rng, &im, l, &c.cfg.cmp, &keys, "empty_block_with_type_byte", &progress);
+                    // the same empty block appended to the base image, the footer's index handle pointing at it
+                    let mut im2 = c.img[..len - 48].to_vec();
+                    let at = im2.len();
+                    im2.extend(crate::refenc::physical(&[], ctype));
+                    let mut f2 = crate::refenc::handle(at, 0);
+                    f2.extend(crate::refenc::handle(at, 0));
+                    f2.resize(40, 0);
+                    f2.extend_from_slice(&[0x57, 0xfb, 0x80, 0x8b, 0x24, 0x75, 0x47, 0xdb]);
+                    im2.extend(f2);
+                    let l2 = im2.len();
+                    c08_session(d, rep, rng, &im2, l2, &c.cfg.cmp, &keys, "empty_block_with_type_byte", &progress);
+                }
             }
             // valid checksums over damaged contents
             for _ in 0..6 {
@@ -943,10 +976,80 @@ pub fn c10(ctx: &Ctx) -> Report {
 }
 
 // ------------------------------------------------------------------------------------------- C14
+/// a source whose k-th read (counted from `arm`) fails with an error of a chosen STATUS CODE
+use sstable::{Status, StatusCode};
+struct CodedFaultFile {
+    data: Vec<u8>,
+    countdown: Arc<std::sync::atomic::AtomicIsize>,
+    code: StatusCode,
+}
+impl RandomAccess for CodedFaultFile {
+    fn read_at(&self, off: usize, dst: &mut [u8]) -> sstable::Result<usize> {
+        let c = self.countdown.fetch_sub(1, std::sync::atomic::Ordering::SeqCst);
+        if c == 0 {
+            return Err(Status::new(self.code.clone(), "injected failure"));
+        }
+        self.data.read_at(off, dst)
+    }
+}
+/// Read failures whose error value carries OTHER status codes than IOError (a source may report NotFound, Corruption,
+/// PermissionDenied, ...): judged on the real crate only. A lookup of a stored key under such a failure returns the value
+/// or an error - never "absent" (a code that also means "no such key" must not be confused with it); a scan never
+/// returns foreign data; afterwards everything is correct again.
+fn c14_error_codes(d: &mut Driver, rep: &mut Report, rng: &mut Rng) {
+    let codes = [StatusCode::NotFound, StatusCode::Corruption, StatusCode::PermissionDenied, StatusCode::InvalidArgument, StatusCode::AlreadyExists, StatusCode::InvalidData, StatusCode::NotSupported];
+    for _ in 0..4 {
+        let mut cfg = gen_wcfg(rng);
+        cfg.block_size = *rng.pick(&[8usize, 20, 60]);
+        let es = gen_entries(rng, &cfg.cmp, 8, 10);
+        let c = match build_case(d, rep, &cfg, &es) {
+            Some(c) => c,
+            None => continue,
+        };
+        for code in codes.iter() {
+            for pol in [c.cfg.pol.clone(), PolKind::NoFilter] {
+                for (k, v) in c.es.iter() {
+                    for fail_at in 0..2isize {
+                        let countdown = Arc::new(std::sync::atomic::AtomicIsize::new(isize::MAX));
+                        let mut o = WCfg { cmp: c.cfg.cmp.clone(), block_size: 0, restart: 1, snappy: false, pol: pol.clone() }.options();
+                        o = { let mut x = Options::default().with_cache_capacity(2); x.cmp = o.cmp; x.filter_policy = o.filter_policy; x };
+                        let f = CodedFaultFile { data: c.img.clone(), countdown: countdown.clone(), code: code.clone() };
+                        let tb = match Table::new(o, Box::new(f), c.img.len()) {
+                            Ok(t) => t,
+                            Err(_) => continue,
+                        };
+                        countdown.store(fail_at, std::sync::atomic::Ordering::SeqCst);
+                        let got = tb.get(k);
+                        rep.case(&format!("coded-fault {:?} {} {}", code, hex(k), fail_at), true);
+                        rep.count("lookups_under_failures_with_other_status_codes");
+                        let bad = match &got {
+                            Ok(Some(x)) => x != v,
+                            Ok(None) => true,
+                            Err(_) => false,
+                        };
+                        if bad {
+                            rep.judge_fail(J::obj(vec![("what", J::s("a lookup of a stored key under a read failure returns a wrong answer (absent / another value) instead of the value or an error")), ("status_code_of_the_injected_error", J::s(&format!("{:?}", code))), ("failing_read", J::N(fail_at as i64)), ("key", J::s(&hex(k))), ("got", J::s(&format!("{:?}", got.map(|x| x.map(|y| hex(&y))).map_err(|e| e.code)))), ("cfg", J::s(&c.cfg.describe())), ("entries", J::s(&entries_str(&c.es)))]));
+                            return;
+                        }
+                        countdown.store(isize::MAX, std::sync::atomic::Ordering::SeqCst);
+                        if !matches!(tb.get(k), Ok(Some(ref x)) if x == v) {
+                            rep.judge_fail(J::obj(vec![("what", J::s("after a coded read failure a lookup is not correct")), ("key", J::s(&hex(k)))]));
+                            return;
+                        }
+                    }
+                }
+            }
+        }
+    }
+}
+
 pub fn c14(ctx: &Ctx) -> Report {
     let base = Report::new("C14", "scenario per table: open; full scan; lookups of all keys; seeks; then the fault schedule is cleared and scan + lookups are repeated; a second, cursor scenario (capacity 1): seek to the first entry of a later block, prev across the block boundary, next, next, each followed by current, with a fault at every data-block read, judged by position tracking (under faults: invalid or the exact position, forward steps may skip whole blocks; afterwards exact). A fault (IOError / short by 1 / short to half / short to 0) is injected at the i-th read_at call for every i of the fault-free run (quick: every i for small scenarios, sampled i beyond 40 calls), at pairs (i,j), on every call within a window, and permanently from call i on; compared op by op with the model (results, read log, events, cache count); judge: open and lookups give the correct answer or an error; a scan yields in order only original entries and omits only whole blocks (block partition from the independent decoder); after the faults stop every operation returns the fully correct result (nothing read during a failure was cached); the deep-recursion clause is covered by witness D15 (150000 consecutive failing blocks in a child process); non-trivial = every faulted run; distinct by request");
     let n = per_thread(ctx, 120, 1600);
     parallel(&ctx.driver, ctx.threads, ctx.seed, base, |t, d, rng, rep| {
+        if t == 2 % ctx.threads.max(1) {
+            c14_error_codes(d, rep, rng);
+        }
         for i in 0..n {
             let mut cfg = gen_wcfg(rng);
             cfg.block_size = *rng.pick(&[8usize, 20, 60, 4096]);
